@@ -44,11 +44,11 @@ theorem wt_circW {c : Circuit} {ld : Loaded} (h : Rep c ld) (hf : Forward c) (hz
     rw [ea]; unfold litW; rw [if_neg ha, Int.natAbs_neg, Int.natAbs_natCast]
   rw [e1, e2]
 
-/-- root weight = weighted model count of the circuit (last line compound) -/
+/-- root weight = weighted model count of the circuit -/
 theorem rootWeight_eq_wmc {c : Circuit} {ld : Loaded} (h : Rep c ld) (hv : Valid c)
-    (ws : List (Nat × (Rat × Rat))) (nd : NNode) (hlast : c.getLast? = some nd) (hcomp : isCompound nd = true) :
+    (hroot : RootOK c ld) (ws : List (Nat × (Rat × Rat))) (hne : c ≠ []) :
     rootWeight ld.store ws = ∑ T ∈ models c, tableWt ld.store (wfun ws) (rootVarsF c) T := by
-  rw [rootWeight_eq_evalC h hv.forward hv.litsNonzero ws nd hlast hcomp, ← srOf_rat,
+  rw [rootWeight_eq_evalC h hroot hv.forward hv.litsNonzero ws hne, ← srOf_rat,
     evalC_is_wmc hv, wmc_eq_sum_models]
   apply Finset.sum_congr rfl
   intro T _
@@ -57,7 +57,7 @@ theorem rootWeight_eq_wmc {c : Circuit} {ld : Loaded} (h : Rep c ld) (hv : Valid
 /-- the query trick on the loaded store: after `_set_value(|k|, k > 0)` for the store literal `k = atomLit q`, the
 root weight is the weighted count of the circuit models in which `q` is true -/
 theorem rootWeight_setValue_eq_wmc {c : Circuit} {ld : Loaded} (h : Rep c ld) (hv : Valid c)
-    (ws : List (Nat × (Rat × Rat))) (nd : NNode) (hlast : c.getLast? = some nd) (hcomp : isCompound nd = true)
+    (hroot : RootOK c ld) (ws : List (Nat × (Rat × Rat)))
     (q : Int) (hq : q ≠ 0) (hmem : q.natAbs ∈ rootVarsF c) :
     rootWeight ld.store (setValue ws (atomLit ld.store q).natAbs (decide (atomLit ld.store q > 0))) =
       ∑ T ∈ models c with litTrue (assign T) q = true, tableWt ld.store (wfun ws) (rootVarsF c) T := by
@@ -70,7 +70,9 @@ theorem rootWeight_setValue_eq_wmc {c : Circuit} {ld : Loaded} (h : Rep c ld) (h
     · exact Or.inl hj
     · exact Or.inr hj
   have hk0 : atomLit ld.store q ≠ 0 := h.atomLit_ne_zero hq'
-  rw [rootWeight_eq_evalC h hf hz _ nd hlast hcomp]
+  have hne : c ≠ [] := by
+    intro e; subst e; simp [rootVarsF_nil] at hmem
+  rw [rootWeight_eq_evalC h hroot hf hz _ hne]
   have hcongr : evalC ratSR (circW ld.store (wfun (setValue ws (atomLit ld.store q).natAbs
         (decide (atomLit ld.store q > 0))))) c =
       evalC ratSR (fun l => if l = -q then 0 else circW ld.store (wfun ws) l) c := by
